@@ -562,7 +562,7 @@ func c18Run(r *ev.Run, x c18Session) (sawError bool) {
 			return "", false
 		}
 	}
-	watchdog := 6 * time.Second
+	watchdog := 15 * time.Second // generous: a loaded machine must not turn a slow call into an alarm
 	check := func(name, res string) bool {
 		if strings.HasPrefix(res, "err:") && !strings.HasPrefix(name, "followup-") {
 			sawError = true
@@ -1010,9 +1010,9 @@ func c18Race(r *ev.Run, x c18Session) {
 			if strings.HasPrefix(out, "PANIC") {
 				r.Violation("c18.race-pass.panic", fmt.Sprintf("[%s] %s", x, out), map[string]interface{}{"session": x.String()})
 			}
-		case <-time.After(10 * time.Second):
+		case <-time.After(20 * time.Second):
 			gs := clientGoroutines()
-			r.Violation("c18.race-pass.call-never-returns.at-"+blockedSite(gs, ""), fmt.Sprintf("[%s] a call did not return within 10s: %s", x, strings.Join(gs, " || ")), map[string]interface{}{"session": x.String(), "client_goroutines": gs})
+			r.Violation("c18.race-pass.call-never-returns.at-"+blockedSite(gs, ""), fmt.Sprintf("[%s] a call did not return within 20s: %s", x, strings.Join(gs, " || ")), map[string]interface{}{"session": x.String(), "client_goroutines": gs})
 		}
 	}
 	s.settle() // the background goroutines go on while a reconnect set off by X or Y completes
